@@ -33,7 +33,16 @@ func NewDisconnectMessage() *DisconnectMessage {
 
 // Decode decodes the message.
 func (m *DisconnectMessage) Decode(src []byte) (int, error) {
-	return m.header.decode(src)
+	n, err := m.header.decode(src)
+	if err != nil {
+		return n, err
+	}
+
+	if m.remlen != 0 {
+		return n, fmt.Errorf("%s/Decode: Invalid remaining length %d. Expecting 0", m.Name(), m.remlen)
+	}
+
+	return n, nil
 }
 
 // Encode encodes the message.
